@@ -16,7 +16,14 @@ import PIL
 from .. import _ctlseqs as ctlseqs, utils
 
 # These sequences are used during performance-critical operations that occur often
-from .._ctlseqs import CURSOR_FORWARD, CURSOR_UP, ERASE_CHARS, ITERM2_START, ST
+from .._ctlseqs import (
+    CURSOR_DOWN,
+    CURSOR_FORWARD,
+    CURSOR_UP,
+    ERASE_CHARS,
+    ITERM2_START,
+    ST,
+)
 from ..exceptions import RenderError, TermImageUserWarning
 from ..utils import (
     ClassInstanceProperty,
@@ -544,15 +551,20 @@ class ITerm2Image(GraphicsImage, metaclass=ITerm2ImageMeta):
                 f"{erase_and_move_cursor}\n" * (r_height - 1) + erase_and_move_cursor,
                 *fmt,
             )
-            print(
-                first_frame,
-                "\r",
-                # `CSI 0 A` moves the cursor up by one line, on most terminals
-                CURSOR_UP % (lines - 1) if lines > 1 else "",
-                sep="",
-                end="",
-                flush=True,
-            )
+            try:
+                print(
+                    first_frame,
+                    "\r",
+                    # `CSI 0 A` moves the cursor up by one line, on most terminals
+                    CURSOR_UP % (lines - 1) if lines > 1 else "",
+                    sep="",
+                    end="",
+                    flush=True,
+                )
+            except BaseException:
+                # Interrupted; the cursor may be anywhere within the region
+                print(CURSOR_DOWN % (lines - 1) if lines > 1 else "", end="")
+                raise
 
         super()._display_animated(img, alpha, fmt, *args, mix=True, **kwargs)
 
